@@ -13,11 +13,14 @@ CONSTANTS
   LatchError = TRUE
   CountAccepted = TRUE
   KeepFirstError = FALSE
-  Modes = {"never", "whole", "prefix"}
+  LatchOn = "err"
+  Modes = {"never", "whole", "prefix", "edge"}
   Pieces = {0, 1}
   GivenFile = ""
   MaxCalls = 2
   LaterModes = {"never", "whole", "prefix"}
   FreshPerCall = TRUE
+  ShareChoices = {FALSE}
+  PerWriterWrapper = FALSE
 INVARIANTS NeverFails AlwaysFails NeverSkips NoHistory
 CHECK_DEADLOCK FALSE
